@@ -350,8 +350,8 @@ def run(repo, pid):
     for q, fn in _functions(sm):
       for n in _own_nodes(fn):
         if isinstance(n, ast.Attribute) and n.attr in ('_selector_tree', '_selector_map'):
-          ok = q.startswith('SelectorMap.') and isinstance(n.value, ast.Name) and \
-              n.value.id in ('self', 'sm')
+          # inside the class's own methods, on `self` or on another local instance (copy())
+          ok = q.startswith('SelectorMap.') and isinstance(n.value, ast.Name)
           if not ok:
             bad.append((q, n.lineno))
     ob('selector_map.py/SelectorMap/representation_private_to_its_methods', not bad,
